@@ -24,6 +24,9 @@ type Reporter interface {
 	Distinct(key string)
 	Add(name string, n int64)
 	Sample(s interface{})
+	Note(format string, a ...interface{})
+	Capped(what string)
+	Heartbeat() // tells the parent the in-flight case is alive (long cases)
 }
 
 // WorkerFunc enumerates n cases; run executes case idx.
@@ -57,7 +60,7 @@ func (r *wreporter) send(m wmsg) {
 	r.mu.Lock()
 	r.w.Write(b)
 	r.w.WriteByte('\n')
-	if m.T == "start" || m.T == "end" || m.T == "viol" {
+	if m.T == "start" || m.T == "end" || m.T == "viol" || m.T == "viol-hb" {
 		r.w.Flush()
 	}
 	r.mu.Unlock()
@@ -68,6 +71,11 @@ func (r *wreporter) Violate(sub, key string, detail, cas interface{}) {
 func (r *wreporter) Distinct(key string)      { r.send(wmsg{T: "distinct", Key: key}) }
 func (r *wreporter) Add(name string, n int64) { r.send(wmsg{T: "add", Key: name, N: n}) }
 func (r *wreporter) Sample(s interface{})     { r.send(wmsg{T: "sample", Detail: s}) }
+func (r *wreporter) Capped(what string)       { r.send(wmsg{T: "capped", Key: what}) }
+func (r *wreporter) Heartbeat()               { r.send(wmsg{T: "viol-hb"}) }
+func (r *wreporter) Note(format string, a ...interface{}) {
+	r.send(wmsg{T: "note", Key: fmt.Sprintf(format, a...)})
+}
 
 // WorkerMain is the entry point of a worker subprocess: vcheck WORKER <name> <shard> <nshards> <from> args...
 func WorkerMain(argv []string) {
@@ -201,6 +209,10 @@ func (c *Ctx) RunGuarded(spec GuardSpec) int64 {
 							c.Add(m.Key, m.N)
 						case "sample":
 							c.Sample(m.Detail)
+						case "note":
+							c.Note("%s", m.Key)
+						case "capped":
+							c.Capped(m.Key)
 						}
 					case <-time.After(spec.Stall):
 						stalled = true
